@@ -118,8 +118,8 @@ void worker_main(Worker *w) {
 
 // Waits until worker w is parked; the caller holds lk.
 void wait_parked(std::unique_lock<std::mutex> &lk, Worker *w) {
-  if (!main_cv.wait_for(lk, std::chrono::seconds(5), [w] { return w->parked; }))
-    stuck("a released thread did not reach its next scheduling point within 5 s");
+  if (!main_cv.wait_for(lk, std::chrono::seconds(20), [w] { return w->parked; }))
+    stuck("a released thread did not reach its next scheduling point within 20 s");
 }
 
 void teardown() {
